@@ -22,6 +22,7 @@
 EXTENDS MtailLang, Json
 
 CONSTANTS DEV_FoldIntModFloatIsZero, EmitCases,
+          Family,   \* "const": fully constant expressions; "open": expressions that contain the non-constant leaf X (= $1)
           Deep      \* TRUE: every depth-2 expression; FALSE: the outer operand of depth-2 expressions from a 3-literal subset
 
 IntLits   == {-2, -1, 0, 1, 2, 3, 7}
@@ -39,6 +40,19 @@ Outer == IF Deep THEN Leaves ELSE {ILit(0), ILit(3), FLit(<<-3,2>>)}
 Depth2 == {BinE(op, l, r) : op \in Ops, l \in Depth1, r \in Outer} \cup
           {BinE(op, l, r) : op \in Ops \ {"**"}, l \in Outer, r \in Depth1}
 ConstExprs == Leaves \cup Depth1 \cup {e \in Depth2 : ExpOK(e.op, e.r)}
+
+\* the open family: the folder must leave alone every operator that has a non-literal operand (and still fold the
+\* constant sub-trees next to it); X stands for the capture $1, which the harness feeds with the line "4"
+XLeaf == [n |-> "cap", p |-> 1, slot |-> 1, g |-> 1, byname |-> FALSE, name |-> ""]
+XVal == 4     \* a power of two, like every divisor of this family: all quotients stay dyadic (exact in float64)
+OLeaves == {ILit(0), ILit(1), ILit(2), ILit(4), FLit(<<1,2>>), FLit(<<2,1>>), XLeaf}
+OOps == {"+", "-", "*", "/", "%"}
+OD1 == {BinE(op, l, r) : op \in OOps, l \in OLeaves, r \in OLeaves}
+OD2 == {BinE(op, l, r) : op \in OOps, l \in OD1, r \in OLeaves} \cup {BinE(op, l, r) : op \in OOps, l \in OLeaves, r \in OD1}
+RECURSIVE HasX(_), SubstX(_)
+HasX(x) == x.n = "cap" \/ (x.n = "bin" /\ (HasX(x.l) \/ HasX(x.r)))
+SubstX(x) == IF x.n = "cap" THEN ILit(XVal) ELSE IF x.n = "bin" THEN BinE(x.op, SubstX(x.l), SubstX(x.r)) ELSE x
+OpenExprs == {x \in OD1 \cup OD2 : HasX(x)}
 
 IsLit(e) == e.n \in {"int", "float"}
 LitVal(e) == IF e.n = "int" THEN IntV(e.v) ELSE RatV(e.v[1], e.v[2])
@@ -81,7 +95,7 @@ HasZeroDivisor(e) ==
 \* checker.go (runs on the unfolded tree when the optimiser is off): `Can't divide by zero` when the right
 \* operand of an INTEGER / or % is the literal 0 itself (a float left side wraps the divisor in a conversion)
 RECURSIVE TyOf(_), CheckerRejects(_)
-TyOf(x) == IF x.n = "int" THEN "int" ELSE IF x.n = "float" THEN "float"
+TyOf(x) == IF x.n \in {"int", "cap"} THEN "int" ELSE IF x.n = "float" THEN "float"
            ELSE IF TyOf(x.l) = "int" /\ TyOf(x.r) = "int" THEN "int" ELSE "float"
 CheckerRejects(x) ==
   /\ x.n = "bin"
@@ -91,18 +105,24 @@ CheckerRejects(x) ==
 SameVal(a, b) == IF IsNum(a) /\ IsNum(b) THEN a.k = b.k /\ REq(ToRat(a), ToRat(b)) ELSE a = b
 
 VARIABLE e
-Init == e \in ConstExprs
+Init == e \in (IF Family = "open" THEN OpenExprs ELSE ConstExprs)
 Next == UNCHANGED e
 Spec == Init /\ [][Next]_e
 
 FoldPreservesValue ==
-  LET f == Fold(e)  a == EvalConst(e) IN
-  (~f.rej /\ ~f.ovf /\ ~a.ovf) => LET b == EvalConst(f.e) IN ~a.err /\ ~b.err /\ ~b.ovf /\ SameVal(a.v, b.v)
-RejectsOnlyZeroDivisor == Fold(e).rej <=> HasZeroDivisor(e)
+  LET f == [Fold(e) EXCEPT !.e = SubstX(@)]  a == EvalConst(SubstX(e)) IN
+  (~f.rej /\ ~f.ovf /\ ~a.ovf) => LET b == EvalConst(f.e) IN
+                                     /\ ~b.ovf /\ a.err = b.err                 \* same runtime-error behaviour
+                                     /\ (~a.err => SameVal(a.v, b.v))
+                                     /\ (~HasX(e) => ~a.err)                   \* a constant expression that folds never errs
+RejectsOnlyZeroDivisor == /\ Fold(e).rej => HasZeroDivisor(e)
+                          /\ ~HasX(e) => (HasZeroDivisor(e) => Fold(e).rej)
 \* everything the folder accepts and that is fully constant becomes ONE literal
 \* whatever the checker refuses on the unfolded tree the folder refuses too
-CheckerRejectImpliesFoldReject == CheckerRejects(e) => Fold(e).rej
-FoldsToLiteral == LET f == Fold(e) IN (~f.rej /\ ~f.ovf) => IsLit(f.e)
+CheckerRejectImpliesFoldReject == (CheckerRejects(e) /\ ~HasX(e)) => Fold(e).rej
+FoldsToLiteral == LET f == Fold(e) IN (~f.rej /\ ~f.ovf /\ ~HasX(e)) => IsLit(f.e)
+\* an operator with a non-constant operand is never folded away: X survives folding
+KeepsNonConstant == LET f == Fold(e) IN (~f.rej /\ ~f.ovf /\ HasX(e)) => HasX(f.e)
 
-Emit == EmitCases => PrintT(<<"CASE", ToJson([e |-> e, f |-> Fold(e), v |-> EvalConst(e), ckrej |-> CheckerRejects(e)])>>)
+Emit == EmitCases => PrintT(<<"CASE", ToJson([e |-> e, f |-> Fold(e), v |-> EvalConst(SubstX(e)), ckrej |-> CheckerRejects(e), ckrejon |-> CheckerRejects(Fold(e).e), open |-> HasX(e)])>>)
 =============================================================================
